@@ -11,16 +11,24 @@
 // Every operation prints one canonical line that the compiled Lean model must reproduce.
 //
 // Monitors (independent of the Lean model; they only use the implementation's observable
-// results and direct queries on the real store):
+// results, direct queries on the real store and the harness's own record of what it did):
 //
 //	M1 delivered indexes of one subscription never decrease
 //	M2 after every view update the view equals the direct query result recorded at the
-//	   delivered index (for the end of a snapshot: at some version not later than the
-//	   subscription whose direct query reported the same index)
-//	M3 a subscriber that has nothing left to read while nothing is queued holds the current
-//	   direct query result (no committed change skipped)
+//	   delivered index (for the end of a snapshot: some version not later than the
+//	   subscription answered the direct query with this very (index, result))
+//	M3 a subscriber (streaming or resumed) that has nothing left to read while nothing is
+//	   queued holds the current direct query result (no committed change skipped)
 //	M4 after an ACL token write was published / after FSM.Restore the next Next() of every
-//	   affected subscription fails with ErrACLChanged / ErrSubForceClosed
+//	   affected subscription fails with ErrACLChanged / ErrSubForceClosed; handler errors and
+//	   unexpected framing events are violations of their own
+//
+// A violation is reported under the signature of its root cause when the harness itself
+// created that cause (snapshot taken while batches were queued, batch of a discarded history,
+// materializer index beyond a restored version, a registration flagged by flagWrite from the
+// store's own answers before it was applied); every other mismatch gets a generic signature.
+// Schedules: deterministic witnesses of the five known findings, a deterministic corpus, an
+// exhaustive enumeration of a small alphabet, and random schedules.
 package main
 
 import (
@@ -1357,7 +1365,7 @@ func main() {
 	}
 	run.Extra["exhaustive_schedules"] = exhaustive(run, depth)
 	run.Extra["exhaustive"] = true
-	n := run.Scale(400, 4000)
+	n := run.Scale(400, 3000)
 	for i := 0; i < n; i++ {
 		r := run.RNG.Fork(uint64(i))
 		randomSchedule(run, r, 26, i%3 == 2)
